@@ -106,6 +106,15 @@ CHECKS = {
             "bounded: words <= 6 / 7 units, all 2^(n-1) schedules; words outside the maximal-munch class only as pinned witnesses "
             "(finding F18); chart-level conformance (Earley.tla) is not part of this check",
             "TLC-enumerated feeding schedules and TLC-enumerated languages replayed into the real incremental parser"),
+    "C15": ("translation_validation",
+            "programs = rule bodies, literals, annotated/generator specs and constraints; SpecPrint.tla enumerates every rule body to "
+            "depth 2 over all operators (3279) plus seeded deeper ones; each is read by the real front end, printed with repr(grammar), "
+            "re-read, both sides converted to IR and compared by TLC (SpecPrint.Same: equality modulo associativity, open bounds stay "
+            "open); printed constraints are re-read and their verdicts judged against Constraint.Sat of the original on "
+            "TLC-enumerated trees",
+            "bounded: depth-2 bodies (all repetition-rooted + 35% of the rest quick; all thorough), 150 / 3000 deeper bodies, 28 nasty "
+            "literals; constraints limited to atoms and counts (quantifier and and/or printing are findings F33/F34)",
+            "TLC-enumerated program space + print/re-read translation validation judged by TLC"),
     "C16": ("model_checking",
             "Generators.tla (argument replacement re-generates the field, generated text is never edited; the 'only the last "
             "argument' slip is shown to violate FieldIsGenerated) model-checked by TLC; every TLC-enumerated history of argument "
